@@ -191,4 +191,67 @@ def modelFlows : List (String × String) := [
 
 theorem flows_generated : (modelFlows.map (·.2)).isPerm AliasTables.takeFlows = true := by decide +kernel
 
+/-- MACHINE-READABLE pairing, read by `tools/tables/alias.py` on every run: per parser function, for every
+    take_token_* call of its extracted flow (in the order of the canonical form, `@` calls skipped), the automaton states
+    in which the parser makes that call.  The extractor zips it with the flows it finds (`Generated/AliasTables.flowPairs`)
+    and fails loudly if a function or a call has no partner; `pairs_checked` ties it to `sites` and to the state space. -/
+def pairing : List (String × List (List String)) := [
+  ("and_or_list", [["pre", "one", "args", "afterComp"]]),
+  ("array_values", [["arrOpen"], ["arr"]]),
+  ("case_command", [["cmd0", "fnBody"], ["caseSubj"], ["caseIn"], ["casePat0", "cmd0"]]),
+  ("case_item", [["casePat0"], ["casePat1"], ["caseSep"], ["casePatN"], ["cmd0", "pre", "one", "args", "afterComp"]]),
+  ("do_clause", [["cmd0", "forIn", "forBody", "afterComp"], ["cmd0", "afterComp"]]),
+  ("elif_then_clause", [["cmd0", "afterComp"], ["cmd0", "afterComp"], ["cmd0"]]),
+  ("for_loop", [["cmd0", "fnBody"]]),
+  ("for_loop_body", [["forBody"]]),
+  ("for_loop_name", [["forName"]]),
+  ("for_loop_values", [["forIn"], ["forIn"], ["forWords"]]),
+  ("grouping", [["cmd0", "fnBody"], ["cmd0", "afterComp"]]),
+  ("here_doc_redirection_body", [["cmd0", "pre", "one", "args", "afterComp"]]),
+  ("if_command", [["cmd0", "fnBody"], ["cmd0", "afterComp"], ["cmd0"], ["cmd0", "afterComp"], ["cmd0"], ["cmd0", "afterComp"]]),
+  ("list", [["pre", "one", "args", "afterComp"]]),
+  ("newline_and_here_doc_contents",
+    [["cmd0", "pre", "one", "args", "afterComp", "fnBody", "forIn", "forBody", "caseIn", "casePat0"]]),
+  ("normal_redirection_body", [["cmd0", "pre", "one", "args", "afterComp"]]),
+  ("pipeline", [["cmd0"], ["cmd0"], ["pre", "one", "args", "afterComp"], ["cmd0"]]),
+  ("redirection", [["cmd0", "pre", "one", "args", "afterComp"]]),
+  ("redirection_operand", [["redir", "redirH"]]),
+  ("short_function_definition", [["one"], ["fnClose"], ["fnBody"]]),
+  ("simple_command", [["cmd0", "pre", "one", "args"]]),
+  ("subshell", [["cmd0", "fnBody"], ["pre", "one", "args", "afterComp"]]),
+  ("until_loop", [["cmd0", "fnBody"], ["cmd0"], ["cmd0", "afterComp"]]),
+  ("while_loop", [["cmd0", "fnBody"], ["cmd0"], ["cmd0", "afterComp"]])
+]
+
+/-- a representative of every automaton state, by name -/
+def repStates : List (String × PState) := [
+  ("cmd0", .cmd0), ("pre", .pre), ("one", .one), ("args", .args), ("redirH", .redirH 1 false), ("redir", .redir 1),
+  ("afterComp", .afterComp), ("arrOpen", .arrOpen), ("arr", .arr), ("fnClose", .fnClose), ("fnBody", .fnBody),
+  ("forName", .forName), ("forIn", .forIn true), ("forWords", .forWords), ("forBody", .forBody),
+  ("caseSubj", .caseSubj), ("caseIn", .caseIn), ("casePat0", .casePat0), ("casePat1", .casePat1),
+  ("caseSep", .caseSep), ("casePatN", .casePatN), ("err", .err)]
+
+/-- the extractor's spelling of a substituting call -/
+def Take.item : Take → String
+  | .auto kws => "a[" ++ ",".intercalate kws ++ "]"
+  | .manual f => "m(" ++ f ++ ")"
+
+/-- the pairs of the extractor (function, call, states) against `sites` and the state space:
+    (1) a substituting call (`a[..]` / `m(..)`) of a function is paired with exactly the states that the sites of that
+    function with that call cover; (2) every state but `err` is paired with some call; (3) every paired state name is a
+    state; (4) as many pairs as there are take_token_* calls in the extracted flows -/
+def pairsChecked : Bool :=
+  (AliasTables.flowPairs.all fun (fn, item, _) =>
+    item == "r" ||
+    repStates.all fun (nm, st) =>
+      (AliasTables.flowPairs.any fun (fn', item', sts) => fn' == fn && item' == item && sts.contains nm) ==
+      (sites.any fun s => s.fn == fn && s.take.item == item && s.covers st)) &&
+  (repStates.all fun (nm, _) => nm == "err" || AliasTables.flowPairs.any fun (_, _, sts) => sts.contains nm) &&
+  (AliasTables.flowPairs.all fun (_, _, sts) => sts.all fun nm => repStates.any fun (n, _) => n == nm) &&
+  AliasTables.flowPairs.length == AliasTables.takeItemCount &&
+  -- every site of `sites` is the partner of some pair
+  (sites.all fun s => AliasTables.flowPairs.any fun (fn, item, _) => fn == s.fn && item == s.take.item)
+
+theorem pairs_checked : pairsChecked = true := by decide +kernel
+
 end YashModel.Alias
